@@ -1565,7 +1565,7 @@ PROPS["C19"] = dict(
                  ("Tmcg.C19.crc24_spec", "full"), ("Tmcg.C19.len_roundtrip", "full"),
                  ("Tmcg.C19.len_forms_disjoint", "full"), ("Tmcg.C19.partial_len_pow2", "full"),
                  ("Tmcg.C19.mpi_roundtrip", "full"), ("Tmcg.C19.armor_roundtrip", "full"),
-                 ("Tmcg.C19.armor_rejects_bad_checksum", "full"), ("Tmcg.C19.s2k_count_table", "full"),
+                 ("Tmcg.C19.armor_rejects_bad_checksum", "full"), ("Tmcg.C19.armor_empty_roundtrip_instances", "full"), ("Tmcg.C19.s2k_count_table", "full"),
                  ("Tmcg.C19.string_roundtrip", "full"),
                  ("Tmcg.C19.s2k_full_input_once", "full"), ("Tmcg.C19.s2k_feed_length", "full"),
                  ("Tmcg.C19.s2k_feed_periodic", "full"), ("Tmcg.C19.s2k_context_preload", "full"),
@@ -1576,7 +1576,7 @@ PROPS["C19"] = dict(
                "Partial: the packet emitters (signature, key, PKESK, SKESK, literal, SEIPD, AEAD ...), fingerprints/key ids are not modelled yet (the S2K streams are: the digests themselves are libgcrypt's, checked against hashlib by the predicate); GnuPG as second oracle was used once by hand (gpg --dearmor accepted the emitted armors) and is not part of the check.",
     level_note=LEVEL_NOTE,
     assumptions=["partial: packet emitters beyond the primitive encodings are not yet covered",
-                 "known finding F14: the armor of an empty octet string is emitted but not accepted by ArmorDecode"],
+                 "the armor round trip of an EMPTY octet string (finding F14, repaired) is proved for instances only and otherwise covered by the correspondence and the predicate"],
 )
 
 # ---------------------------------------------------------------------------- C20
